@@ -1,23 +1,57 @@
 #!/usr/bin/env python3
-"""usage: tools/seed_matrix.py [C01/1 ...] — apply each kept seeded change of /verif/seeded to /repo (git apply), run every
-quick check, undo (git checkout), and record which checks report a violation in seeded/RESULTS.json (and per-seed
-meta.json `caught_by`).  Refuses to run when /repo has local changes."""
+"""usage: tools/seed_matrix.py [-j N] [C01/1 ...] — apply each kept seeded change of /verif/seeded to a scratch copy of
+/repo's working tree (under the system temporary directory, removed afterwards), run every quick check against the copy
+(VERIF_REPO, evidence redirected) and record which checks report a violation in seeded/RESULTS.json (and per-seed
+meta.json `caught_by`).  /repo itself is not touched."""
 import concurrent.futures as cf
-import json, os, subprocess, sys
+import json, os, shutil, subprocess, sys, tempfile, time
 VERIF = os.path.dirname(os.path.dirname(os.path.abspath(__file__)))
 REPO = "/repo"
 
 
-def run_check(pid):
-    p = subprocess.run([os.path.join(VERIF, "checks", "run"), pid, "quick"], capture_output=True, text=True, cwd=VERIF)
+def run_check(pid, work):
+    env = dict(os.environ, VERIF_REPO=work, VERIF_SUBRUN="1", VERIF_EVIDENCE_DIR=work + ".ev")
+    t0 = time.time()
+    p = subprocess.run([os.path.join(VERIF, "checks", "run"), pid, "quick"], capture_output=True, text=True, cwd=VERIF, env=env)
     viol = [l.strip() for l in p.stdout.splitlines() if l.startswith("  at ")]
-    return pid, p.returncode, viol
+    return pid, p.returncode, viol, time.time() - t0
+
+
+def one(args):
+    root, props, pid, n = args
+    work = os.path.join(root, "%s_%s" % (pid, n))
+    patch = os.path.join(VERIF, "seeded", pid, n, "patch.diff")
+    try:
+        subprocess.run(["rsync", "-a", "--exclude", "/target", "--exclude", ".git", REPO + "/", work + "/"], check=True)
+        a = subprocess.run(["git", "apply", "--whitespace=nowarn", patch], cwd=work, capture_output=True, text=True)
+        if a.returncode != 0:
+            return pid, n, {"error": "patch does not apply to the current tree"}, 0
+        t0 = time.time()
+        out = {}
+        first = run_check(pid if pid in props else props[0], work)        # exports the facts once
+        out[first[0]] = first
+        with cf.ThreadPoolExecutor(max_workers=4) as ex:
+            for r in ex.map(lambda p: run_check(p, work), [p for p in props if p != first[0]]):
+                out[r[0]] = r
+        caught = [p for p in props if out[p][1] == 1]
+        broken = [p for p in props if out[p][1] not in (0, 1)]
+        res = {"caught_by": caught, "reports": {p: out[p][2][:3] for p in caught}}
+        if broken:
+            res["check_broken"] = broken
+        return pid, n, res, time.time() - t0
+    finally:
+        shutil.rmtree(work, ignore_errors=True)
+        shutil.rmtree(work + ".ev", ignore_errors=True)
 
 
 def main():
     man = json.load(open(os.path.join(VERIF, "MANIFEST.json")))
     props = [c["property_id"] for c in man["checks"]]
     sel = sys.argv[1:]
+    jobs = 4
+    if sel[:1] == ["-j"]:
+        jobs = int(sel[1])
+        sel = sel[2:]
     seeds = []
     for pid in sorted(os.listdir(os.path.join(VERIF, "seeded"))):
         d = os.path.join(VERIF, "seeded", pid)
@@ -27,40 +61,26 @@ def main():
                     seeds.append((pid, n))
     rp = os.path.join(VERIF, "seeded", "RESULTS.json")
     results = json.load(open(rp)) if os.path.exists(rp) else {}
-    for pid, n in seeds:
-        st = subprocess.run(["git", "-C", REPO, "status", "--porcelain"], capture_output=True, text=True).stdout.strip()
-        if st:
-            print("refusing: /repo has local changes")
-            return 2
-        patch = os.path.join(VERIF, "seeded", pid, n, "patch.diff")
-        a = subprocess.run(["git", "-C", REPO, "apply", "--whitespace=nowarn", patch], capture_output=True, text=True)
-        if a.returncode != 0:
-            print(pid, n, "patch does not apply:", a.stderr[:200])
-            results["%s/%s" % (pid, n)] = {"error": "patch does not apply to the current tree"}
-            continue
-        out = {}
-        try:
-            first = run_check(pid if pid in props else props[0])
-            out[first[0]] = first
-            with cf.ThreadPoolExecutor(max_workers=8) as ex:
-                for r in ex.map(run_check, [p for p in props if p != first[0]]):
-                    out[r[0]] = r
-        finally:
-            subprocess.run(["git", "-C", REPO, "checkout", "--", "."], check=True)
-        caught = [p for p in props if out[p][1] == 1]
-        broken = [p for p in props if out[p][1] not in (0, 1)]
-        res = {"caught_by": caught, "reports": {p: out[p][2][:3] for p in caught}}
-        if broken:
-            res["check_broken"] = broken
-        results["%s/%s" % (pid, n)] = res
-        mp = os.path.join(VERIF, "seeded", pid, n, "meta.json")
-        meta = json.load(open(mp))
-        meta["caught_by"] = caught
-        meta["reports"] = res["reports"]
-        json.dump(meta, open(mp, "w"), indent=1)
-        print("%s/%s CAUGHT-BY: %s%s" % (pid, n, ",".join(caught) or "-", (" BROKEN: " + ",".join(broken)) if broken else ""))
-        sys.stdout.flush()
-    json.dump(results, open(rp, "w"), indent=1, sort_keys=True)
+    root = tempfile.mkdtemp(prefix="verif-seedmatrix.")
+    try:
+        with cf.ThreadPoolExecutor(max_workers=jobs) as ex:
+            for pid, n, res, dt in ex.map(one, [(root, props, pid, n) for pid, n in seeds]):
+                results["%s/%s" % (pid, n)] = res
+                if "error" in res:
+                    print(pid, n, res["error"])
+                    continue
+                mp = os.path.join(VERIF, "seeded", pid, n, "meta.json")
+                meta = json.load(open(mp))
+                meta["caught_by"] = res["caught_by"]
+                meta["reports"] = res["reports"]
+                json.dump(meta, open(mp, "w"), indent=1)
+                broken = res.get("check_broken")
+                print("%s/%s CAUGHT-BY: %s%s  (%.0fs)" % (pid, n, ",".join(res["caught_by"]) or "-",
+                                                        (" BROKEN: " + ",".join(broken)) if broken else "", dt))
+                sys.stdout.flush()
+                json.dump(results, open(rp, "w"), indent=1, sort_keys=True)
+    finally:
+        shutil.rmtree(root, ignore_errors=True)
     return 0
 
 
